@@ -138,6 +138,7 @@ def gen(rng, tier, i):
             # construction (it refuses to read while it has handshake bytes to send): not a proxy property
             chaos_name, sc.net["chaos"] = G.pick_chaos(rng)
         sc.net["spawn_yield"] = rng.choice([0, 200, 500])
+        sc.net["lock_yield"] = rng.choice([0, 0, 300])   # seeded scheduling points at the asynchronous locks
     tmo = 7200000
     # the (single) destination for reverse listeners, fresh destinations otherwise
     v6_origin = rng.random() < 0.15 and ck in ("direct", "http", "socks5", "chain-http") and lk not in ("socks4", "socks4a", "reverse")
